@@ -9,7 +9,7 @@ CONSTANTS
   MaxPend = 2
   NoSpace <- None
   Dev <- DevFilter
-  Budget <- Bq
+  Budget <- Bdev
 SYMMETRY Sym
 INVARIANT TypeOK
 INVARIANT IdxFollowsStore
